@@ -355,6 +355,39 @@ func verifLemma_C09_uint64map_roundtrip(p, q, r, s byte) {
 	verifrt.Assert(len(m.FillTagged(2, nil)) == 0, "absent-id-in-an-empty-bucket")
 }
 
+// C09: iteration over the hash map (Begin / Next / ID / Len / Tag / Data) visits every
+// bucket from the first, groups the entries of one ID, orders the IDs within a bucket,
+// and ends after the last bucket. Same bounded shape as above plus an ID in bucket 0.
+func verifLemma_C09_uint64map_iteration(p, q, r, s, z byte) {
+	const a, b, c, d = uint64(5), uint64(9), uint64(6), uint64(4)
+	mb := NewUint64MapBuilder(2, 2)
+	mb.Reserve(b, 2, 2)
+	mb.Reserve(a, 1, 1)
+	mb.Reserve(c, 0, 1)
+	mb.Reserve(a, 3, 0)
+	mb.Reserve(d, 1, 1)
+	var w Buffer
+	_, err := mb.WriteHeader(&w, 0)
+	verifrt.Assert(err == nil, "header-written")
+	verifrt.Assert(mb.WriteItem(b, 2, []byte{q, r}, &w) == nil, "entry-b-written")
+	verifrt.Assert(mb.WriteItem(c, 0, []byte{s}, &w) == nil, "entry-c-written")
+	verifrt.Assert(mb.WriteItem(a, 1, []byte{p}, &w) == nil, "entry-a1-written")
+	verifrt.Assert(mb.WriteItem(d, 1, []byte{z}, &w) == nil, "entry-d-written")
+	verifrt.Assert(mb.WriteItem(a, 3, []byte{}, &w) == nil, "entry-a3-written")
+	m := NewUint64Map(w.Bytes())
+	it := m.Begin()
+	verifrt.Assert(it.Next(), "first-item")
+	verifrt.Assert(it.ID() == d && it.Len() == 1 && it.Tag(0) == 1 && len(it.Data(0)) == 1 && it.Data(0)[0] == z, "bucket-0-is-visited")
+	verifrt.Assert(it.Next(), "second-item")
+	verifrt.Assert(it.ID() == a && it.Len() == 2, "entries-of-one-id-are-grouped")
+	verifrt.Assert((it.Tag(0) == 1 && it.Tag(1) == 3) || (it.Tag(0) == 3 && it.Tag(1) == 1), "both-entries-of-a")
+	verifrt.Assert(it.Next(), "third-item")
+	verifrt.Assert(it.ID() == b && it.Len() == 1 && it.Tag(0) == 2 && len(it.Data(0)) == 2 && it.Data(0)[0] == q && it.Data(0)[1] == r, "ids-in-a-bucket-are-ordered")
+	verifrt.Assert(it.Next(), "fourth-item")
+	verifrt.Assert(it.ID() == c && it.Len() == 1 && it.Tag(0) == 0 && it.Data(0)[0] == s, "next-bucket")
+	verifrt.Assert(!it.Next(), "ends-after-the-last-bucket")
+}
+
 // vPsum is the sum of the first j reserved lengths (uint64 arithmetic, as the builder computes it).
 func vPsum(rs []uint64, j int) uint64 {
 	if j <= 0 {
